@@ -634,6 +634,16 @@ def gen_events(rng, fmt):
             targets.append((frac(rng, p) if p > 0 else 0, rng.choice(TDESC)))
     targets = sorted(set(targets), key=lambda x: x[0])
     targets = [t for i, t in enumerate(targets) if i == 0 or t[0] != targets[i - 1][0]]
+    if fmt == 4 and len(acts) > 1 and rng.random() < 0.3:
+        # antennas start in STOP with a target left over from the previous capture block: one or two initial stop
+        # scans, the first real target set at a later scan start (the initial-stop-target loop of visdatav4.py)
+        acts[0] = (0, 'stop')
+        k = rng.randrange(1, len(acts))
+        if rng.random() < 0.7:
+            acts = [(a[0], 'stop') if i < k else a for i, a in enumerate(acts)]     # nothing but STOP before it
+        pk = acts[k][0]
+        others = [t for t in TDESC if t != targets[0][1]]
+        targets = [targets[0], (pk, rng.choice(others))] + [t for t in targets[1:] if int(t[0] + 0.5) > int(pk + 0.5)]
     return dict(fmt=fmt, T=T, acts=acts, labels=labels, targets=targets)
 
 
